@@ -37,7 +37,8 @@ fn main() {
     // explorers' allocate/free churn (hundreds of thousands of mprotect calls)
     unsafe {
         libc::mallopt(libc::M_TRIM_THRESHOLD, 1 << 30);
-        libc::mallopt(libc::M_TOP_PAD, 64 << 20);
+        libc::mallopt(libc::M_TOP_PAD, 4 << 20);
+        libc::mallopt(libc::M_ARENA_MAX, 32);
         libc::mallopt(libc::M_MMAP_THRESHOLD, 1 << 30);
     }
     let args: Vec<String> = std::env::args().collect();
